@@ -6,6 +6,7 @@ import (
 	"github.com/aukilabs/hagall-common/messages/hagallpb"
 	hwebsocket "github.com/aukilabs/hagall-common/websocket"
 	"github.com/aukilabs/hagall/internal/verifnd"
+	"google.golang.org/protobuf/types/known/timestamppb"
 )
 
 // pump consumes everything the connection's scheduler has queued, as the main loop would.
@@ -130,7 +131,8 @@ func VerifC11Poses() {
 			if verifnd.Bool() {
 				pose = &hagallpb.Pose{Px: seq}
 			}
-			own.dispatch(&hagallpb.EntityUpdatePose{Type: hagallpb.MsgType_MSG_TYPE_ENTITY_UPDATE_POSE, Timestamp: vts(), EntityId: eid, Pose: pose})
+			// the client's timestamp is arbitrary (clocks jump): recency is the order of sending, not this field
+			own.dispatch(&hagallpb.EntityUpdatePose{Type: hagallpb.MsgType_MSG_TYPE_ENTITY_UPDATE_POSE, Timestamp: symValidTS(), EntityId: eid, Pose: pose})
 			// reference: the scheduler keeps the last update per entity id; an update without pose is dropped when
 			// processed, so the entity keeps the last pose that was processed
 			if eid == e1 {
@@ -313,4 +315,11 @@ func VerifC11Components() {
 		verifnd.Assert(seen[e] == latest[e], "C11.comp.latest_relayed")
 	}
 	verifnd.Reach("C11.comp.done")
+}
+
+// symValidTS: an arbitrary timestamp within protobuf's valid range.
+func symValidTS() *timestamppb.Timestamp {
+	t := symTS()
+	assumeValidTS(t.Seconds, t.Nanos)
+	return t
 }
